@@ -43,8 +43,8 @@ PROPS["C15"] = {
     "rule": "one case = one complete behaviour (start tensor, operation sequence ending in a terminal op); all are distinct by construction; "
             "non-trivial = at least one accepted value-changing op or one refusal",
     "mc": [{"module": "MC_C15",
-            "consts": {"quick": {"MaxDim": 2, "Depth": 1, "Seeds": "{1, 2}"},
-                       "thorough": {"MaxDim": 2, "Depth": 2, "Seeds": "{1, 2, 3}"}},
+            "consts": {"quick": {"MaxDim": 3, "Depth": 1, "Seeds": "{1, 2}"},
+                       "thorough": {"MaxDim": 3, "Depth": 2, "Seeds": "{1, 2}"}},
             "workers": 8}],
     "record": [{"group": "arith", "trace_module": "Trace_C15"}],
     "assumptions": COMMON_ASSUMPTIONS + ["float mode: the harness's own `a op b` in f32 is the IEEE single-precision result"],
@@ -150,9 +150,9 @@ PROPS["C13"] = {
                   "increase after more than `tolerance` epochs, and never runs past the first such epoch; every trajectory is replayed through "
                   "the real learn() (its own stopping code runs unmodified; only the value it sees is scripted); natural trajectories from "
                   "real runs (diverging/converging models) are validated by the trace specification using the logged loss bit patterns",
-    "level_note": "trajectories over 3 (4) ordered values, budgets <= 6 (7), tolerance <= 3 (4); the seam shadows the computed validation loss",
+    "level_note": "trajectories over 3 (4) ordered values, budgets <= 6 (8), tolerance <= 4 (5); the seam shadows the computed validation loss",
     "rule": "one case = one complete trajectory (budget, tolerance, validation on/off, value sequence); all distinct; non-trivial = all",
-    "mc": [training_mc("earlystop", [1, 1, 6, 1, 3, 3, 1], [1, 1, 7, 1, 4, 4, 1])],
+    "mc": [training_mc("earlystop", [1, 1, 6, 1, 4, 3, 1], [1, 1, 8, 1, 5, 4, 1])],
     "record": [{"group": "training", "trace_module": "Trace_Training"}],
     "assumptions": TRAIN_ASSUME + ["the script_val_loss seam only replaces the value pushed/compared; pushes, comparison and return are the code's own"],
 }
@@ -277,7 +277,7 @@ PROPS["C17"] = {
                   "with exact comparison, and the overwrite loop is compared bitwise with a real unrolled network holding the same weights",
     "level_note": "iterations <= 2 (3); sparse identity-like integer weights (vacuity guard: the accumulations must be distinguishable); multiply only for one iteration; mean over 3 tensors compared within 1e-5, everything else exactly",
     "rule": "one case = one (network, range, iterations, input skips) evaluated under 5 accumulations; all distinct; non-trivial = all",
-    "mc": [flow_mc("loop", ["{1, 2, 3, 4}", 1, 2, 1, "{1, 2}", "FALSE"], ["{1, 2, 3, 4}", 1, 3, 1, "{1, 2, 3}", "FALSE"])],
+    "mc": [flow_mc("loop", ["{1, 2, 3, 4}", 1, 3, 1, "{1, 2}", "FALSE"], ["{1, 2, 3, 4}", 1, 4, 1, "{1, 2, 3}", "FALSE"])],
     "assumptions": FLOW_ASSUME,
 }
 PROPS["C11"] = {
@@ -420,3 +420,8 @@ LAYER_TERMS = {"module": "MC_LayerTerms",
 PROPS["C01"]["mc"].append(LAYER_TERMS)
 PROPS["C02"]["mc"].append(LAYER_TERMS)
 PROPS["C01"]["level_note"] += "; smooth and leaky activations composed with the layer structure are checked in term mode on a 9-entry configuration menu (symbolic forward from the same tap formulas, gradients by the symbolic differentiator, 1e-4)"
+
+NET_TRACE = {"group": "net", "trace_module": "Trace_Net", "tlc_timeout": 1500}
+for _p in ("C02", "C08", "C16", "C17", "C01"):
+    PROPS[_p].setdefault("record", []).append(NET_TRACE)
+    PROPS[_p]["technique"] += " + TLC validation of recorded builder/forward/backward sessions of random larger networks (Trace_Net)"
